@@ -5,6 +5,8 @@ import SfntV.Prelude.Bytes
 Line-protocol handlers for area `subset` (C10).
 `subset.run`      V  model of `(*Font).Subset` under the iteration order recovered from `order=`
 `subset.again`    D  second Subset call on the same font value = model on the original font
+`subset.indep`    D  Font.Subset result rendered after the caller overwrote its glyph slice = model
+`subset.indepcff` D  the same for (*cff.Outlines).Subset
 `subset.check`    D  the property's clauses evaluated directly on the Go result `res=`
 `subset.writable` V  can the subset be written (CFF encoding contiguity) and how many glyphs come back
 `subset.cffrun`   V  (*cff.Outlines).Subset called directly, against the SubsetCFF model
@@ -367,7 +369,8 @@ def prefixes : List String := ["subset."]
 def handle (op : String) (fs : List (String × String)) : String :=
   match parseFont fs, (getField fs "glyphs").bind (natsSep ",") with
   | some f, some glyphs =>
-    if op == "subset.run" || op == "subset.again" then
+    if op == "subset.run" || op == "subset.again" || op == "subset.indep" then
+      -- subset.indep: rendered after the caller's glyph slice was overwritten
       -- subset.again: the second of two Subset calls on the same font value; the model is a pure
       -- function of the font, so the expected result is the model's on the original font
       let target := match getField fs "order" with
@@ -398,7 +401,7 @@ def handle (op : String) (fs : List (String × String)) : String :=
         | none => s!"ok:{s.glyphs.length}"
       | .err e => "err:" ++ e
       | .panic _ => "panic"
-    else if op == "subset.cffrun" then
+    else if op == "subset.cffrun" || op == "subset.indepcff" then
       -- (*cff.Outlines).Subset: same transfer as SubsetCFF, no cmap / layout tables, no closure
       if !f.isCFF then "not-cff" else
       match runModel { f with cmaps := none, gsub := none, gpos := none } glyphs none with
